@@ -186,4 +186,5 @@ type schan struct {
 	taken       int // unbuffered: number of hand-offs completed
 	pendingSend int
 	recvWaiting int
+	fired       bool // time.After channel whose tick was delivered
 }
